@@ -63,6 +63,7 @@ type Result struct {
 	Violations    []Item         `json:"violations"`
 	Notes         []string       `json:"notes,omitempty"`
 	seen          map[[8]byte]struct{}
+	perSig        map[string]int
 }
 
 func NewResult() *Result {
@@ -108,7 +109,12 @@ func (r *Result) Disagree(name, what string, replay interface{}) {
 }
 func (r *Result) Violation(sig, what string, replay interface{}) {
 	r.mu.Lock()
-	if len(r.Violations) < 50 {
+	// at most three witnesses per signature, so that a frequently hit (e.g. listed) finding cannot crowd out others
+	if r.perSig == nil {
+		r.perSig = map[string]int{}
+	}
+	if r.perSig[sig] < 3 && len(r.Violations) < 400 {
+		r.perSig[sig]++
 		r.Violations = append(r.Violations, Item{Signature: sig, What: what, Replay: replay, Kind: "input"})
 	}
 	r.mu.Unlock()
